@@ -8,6 +8,8 @@ CONSTANT N
 VARIABLE c
 
 SeqsUpTo(S, n) == UNION {[1..k -> S] : k \in 0..n}
+RECURSIVE Cat2(_)
+Cat2(us) == IF us = <<>> THEN <<>> ELSE Head(us) \o Cat2(Tail(us))
 
 StrCases == UNION {{[kind |-> "STR", style |-> st, us |-> us] : us \in SeqsUpTo(Units(st), N)}
                    : st \in {"lib_sq", "lib_dq", "mysql", "std"}}
@@ -24,7 +26,11 @@ EncParts == {p[2] : p \in PartClasses} \cup {<<102, 114, 111, 109>>, <<112, 114,
              <<223>>, <<115, 115>>, <<64257>>, <<102, 105>>, <<304>>, <<105>>}
 EncCases == {[kind |-> "PARTS", ps |-> ps] : ps \in UNION {[1..k -> EncParts] : k \in 1..2}}
 
-Init == c \in StrCases \cup IdCases \cup ValCases \cup EncCases
+\* variable names: a letter followed by up to N-1 units, in each written form; the same names go to the printer
+VarNames(q) == {<<97>> \o Cat2(us) : us \in SeqsUpTo(VarUnits(q), IF N > 3 THEN 3 ELSE 2)}
+VarCases == UNION {{[kind |-> "VAR", q |-> q, sys |-> sys, name |-> nm] : sys \in BOOLEAN, nm \in VarNames(q)} : q \in {0, SQ, DQ, BQ}}
+
+Init == c \in StrCases \cup IdCases \cup ValCases \cup EncCases \cup VarCases
 Next == UNCHANGED c
 Spec == Init /\ [][Next]_c
 
@@ -35,6 +41,7 @@ IdParts(fs) == [i \in 1..Len(fs) |-> fs[i][1][2]]
 SelfConsistent ==
   IF c.kind = "STR" THEN Denotes(c.style, TextOf(c.style, c.us), ValueOf(c.us))
   ELSE IF c.kind = "ID" THEN PathDenotes(IdText(c.fs), IdParts(c.fs))
+  ELSE IF c.kind = "VAR" THEN VarDenotes(VarText(c.q, c.sys, c.name), c.sys, c.name)
   ELSE TRUE
 \* no literal is ended early by its own content: the scanner stops exactly at the last character
 Inert == c.kind = "STR" => ScanStr(c.style, TextOf(c.style, c.us)).end = Len(TextOf(c.style, c.us))
@@ -45,5 +52,6 @@ Emit ==
           PrintT(<<"STR", c.style, KindsOf(c.us), TextOf(c.style, c.us), ValueOf(c.us)>>)
   ELSE IF c.kind = "VAL" THEN PrintT(<<"VAL", c.v>>)
   ELSE IF c.kind = "PARTS" THEN PrintT(<<"PARTS", c.ps>>)
+  ELSE IF c.kind = "VAR" THEN PrintT(<<"VAR", c.q, c.sys, VarText(c.q, c.sys, c.name), c.name>>)
   ELSE PrintT(<<"ID", [i \in 1..Len(c.fs) |-> <<c.fs[i][1][1], c.fs[i][2]>>], IdText(c.fs), IdParts(c.fs)>>)
 =============================================================================
